@@ -32,6 +32,19 @@ HAND = [
     "Arr": {"type": "array", "items": {"$ref": "#/definitions/S3"}, "minItems": 2, "maxItems": 2}}},
 ]
 
+# allOf of objects that constrain ONE member from two sides: the merge must intersect (multi-byte values at the length limit,
+# integral literals under `number`, a pattern next to an enumeration, a range next to an enumeration)
+HAND.append({"title": "Merged", "type": "object", "properties": {"m": {"$ref": "#/definitions/Label"}, "s": {"$ref": "#/definitions/Scale"}},
+  "definitions": {
+    "Label": {"allOf": [{"type": "object", "properties": {"label": {"type": "string", "maxLength": 4}}, "required": ["label"]},
+                        {"type": "object", "properties": {"label": {"type": "string", "enum": ["mi\u00e9.", "s\u00e1b.", "lun", "\u65e5\u65e5\u65e5\u65e5", "toolong"]}, "n": {"type": "integer"}}}]},
+    "Scale": {"allOf": [{"type": "object", "properties": {"ratio": {"type": "number"}}},
+                        {"type": "object", "properties": {"ratio": {"enum": [1, 2.5, 4]}}, "required": ["ratio"]}]},
+    "Word": {"allOf": [{"type": "object", "properties": {"w": {"type": "string", "pattern": "^[a-z]+$"}}},
+                       {"type": "object", "properties": {"w": {"type": "string", "enum": ["abc", "x", "A1"]}}, "required": ["w"]}]},
+    "Level": {"allOf": [{"type": "object", "properties": {"l": {"type": "integer", "minimum": 0, "maximum": 10}}, "required": ["l"]},
+                        {"type": "object", "properties": {"l": {"type": "integer", "enum": [0, 5, 10, 11]}}}]}}})
+
 def cases(ctx):
     import gen
     out = [("hand:%d" % i, d) for i, d in enumerate(HAND)]
@@ -91,6 +104,15 @@ def attribute(fd_list, doc, key, schema, value, dump, answer=""):
                         if isinstance(v, list): return any(hit(x) for x in v)
                         return False
                     if hit(value): return fd
+        if fd["id"] == "C02-variant-shared-inline-type":
+            from props import c05 as _c05
+            pairs = _c05.shared_variant_types(dump)
+            def hit2(v):
+                if isinstance(v, dict):
+                    return any(tg in v and any(k in v for k in ks) for tg, ks in pairs) or any(hit2(x) for x in v.values())
+                if isinstance(v, list): return any(hit2(x) for x in v)
+                return False
+            if pairs and hit2(value): return fd
         if fd["id"] == "C02-native-default-panic" and answer == "panic" and '"format"' in txt and '"default"' in txt:
             return fd
         if fd["id"] == "C02-uint-format" and ('"uint"' in txt or '"int"' in txt): return fd
